@@ -89,11 +89,12 @@ Escape(i) ==
           /\ Chr(16 * HexVal(C(i + 4)) + HexVal(C(i + 5))) # ""
        THEN <<Chr(16 * HexVal(C(i + 4)) + HexVal(C(i + 5))), 6>>
   ELSE <<"", 0>>
-RECURSIVE ScanStr(_, _)             \* interpreted string body from i: <<value, index of the closing quote or 0>>
-ScanStr(i, acc) == IF i > N \/ C(i) = "\n" THEN <<acc, 0>>            \* a line end terminates nothing: unterminated
-                   ELSE IF C(i) = "\"" THEN <<acc, i>>
-                   ELSE IF C(i) = "\\" THEN (IF Escape(i)[2] = 0 THEN <<acc, 0>> ELSE ScanStr(i + Escape(i)[2], acc \o Escape(i)[1]))
-                   ELSE ScanStr(i + 1, acc \o C(i))
+RECURSIVE ScanStr(_, _, _)          \* interpreted string body from i: <<value, index of the closing quote or 0, saw a line end>>
+ScanStr(i, acc, nl) ==
+  IF i > N THEN <<acc, 0, nl>>
+  ELSE IF C(i) = "\"" THEN <<acc, i, nl>>
+  ELSE IF C(i) = "\\" THEN (IF Escape(i)[2] = 0 THEN <<acc, 0, nl>> ELSE ScanStr(i + Escape(i)[2], acc \o Escape(i)[1], nl))
+  ELSE ScanStr(i + 1, acc \o C(i), nl \/ C(i) = "\n")
 
 Init == ci \in 1..Len(Cases) /\ text = Norm(Cases[ci].text, 1) /\ pos = 1 /\ row = 1 /\ col = 1 /\ toks = <<>> /\ err = FALSE /\ pieces = <<>> /\ unspec = FALSE
 Scanning == ~err /\ pos <= N
@@ -108,10 +109,13 @@ LexLineComment == /\ Scanning /\ At(pos, "//")
 LexBlockComment == /\ Scanning /\ At(pos, "/*")
                    /\ IF FindStr(pos + 2, "*/") = 0 THEN err' = TRUE /\ unspec' = TRUE /\ UNCHANGED <<pos, row, col, toks, pieces>>
                       ELSE ConsumeK(FindStr(pos + 2, "*/") + 1, "com") /\ UNCHANGED <<toks, err, unspec>>   \* ends at the FIRST terminator
+\* Go ends an interpreted literal at the line end ("not terminated"); the property only says that unterminated strings are
+\* errors, so a literal that spans lines but IS closed later is flagged unspecified and never compared.
 LexString == /\ Scanning /\ C(pos) = "\""
-             /\ LET r == ScanStr(pos + 1, "") IN
+             /\ LET r == ScanStr(pos + 1, "", FALSE) IN
                 IF r[2] = 0 THEN Fail
-                ELSE toks' = Append(toks, Tok("STRING_LITERAL", r[1])) /\ Consume(r[2]) /\ UNCHANGED <<err, unspec>>
+                ELSE /\ toks' = Append(toks, Tok("STRING_LITERAL", r[1])) /\ Consume(r[2])
+                     /\ unspec' = (unspec \/ r[3]) /\ UNCHANGED err
 LexRaw == /\ Scanning /\ C(pos) = "`"
           /\ LET e == FindStr(pos + 1, "`") IN
              IF e = 0 THEN Fail
